@@ -91,3 +91,10 @@ Definition proxy_ok (p : Z * Z) : bool :=
   mem2 k v (advertised_pairs broker_advertised) &&      (* the broker behind the proxy serves it *)
   ((k =? 18) || mem k proxy_notready) &&                 (* the proxy can answer while not ready *)
   Bool.eqb (encode_header_flexible k v) (kafka_header_flexible k v).
+
+(* ---- strings in responses.  A non-flexible response writes a string (or nullable string)
+   as int16(len(s)) followed by the bytes, without a range check (kmsg AppendString); a
+   flexible one writes an unsigned varint.  So every string the handler places in a
+   non-flexible response must be shorter than 2^15 bytes: an obligation on response
+   construction, which the harness measures (longest string per API/version). *)
+Definition resp_strings_fit (flexible : bool) (maxlen : Z) : bool := flexible || (maxlen <? 32768).
